@@ -14,6 +14,7 @@
 #include <set>
 #include <sstream>
 #include <string>
+#include <sys/time.h>
 #include <unistd.h>
 #include <vector>
 
@@ -138,6 +139,16 @@ inline void breadcrumb(const std::string &s) {
     __atomic_fetch_add(&progressCounter(), 1UL, __ATOMIC_RELAXED);
 }
 inline int &watchdogPeriod() { static int p = 30; return p; }
+// The watchdog counts the CPU time of this process (ITIMER_PROF), not wall-clock time: a worker that is merely
+// starved by other load on the machine is not "making no progress"; code that loops forever burns CPU and is
+// still caught.  (A worker that blocks without using CPU is ended by the driver's wall-clock job limit, which
+// is reported as a cap, never as a violation.)
+inline void armWatchdog(int periodS) {
+    struct itimerval tv;
+    memset(&tv, 0, sizeof tv);
+    tv.it_value.tv_sec = periodS;
+    setitimer(ITIMER_PROF, &tv, nullptr);
+}
 inline void watchdogHandler(int) {
     static unsigned long last = (unsigned long)-1;
     unsigned long now = __atomic_load_n(&progressCounter(), __ATOMIC_RELAXED);
@@ -149,7 +160,7 @@ inline void watchdogHandler(int) {
         _exit(97);
     }
     last = now;
-    alarm(watchdogPeriod());
+    armWatchdog(watchdogPeriod());
 }
 inline void crashHandler(int sig) {
     const char *m = "\nHARNESS-CRASH signal breadcrumb: ";
@@ -161,8 +172,8 @@ inline void crashHandler(int sig) {
 }
 inline void installWatchdog(int periodS = 30) {
     watchdogPeriod() = periodS;
-    signal(SIGALRM, watchdogHandler);
-    alarm(periodS);
+    signal(SIGPROF, watchdogHandler);
+    armWatchdog(periodS);
     signal(SIGSEGV, crashHandler);
     signal(SIGBUS, crashHandler);
     signal(SIGFPE, crashHandler);
